@@ -377,3 +377,126 @@ Proof.
     by (rewrite ?app_length; lia).
   reflexivity.
 Qed.
+
+(* ====================================================================================== *)
+(* 5. T5: the '!' prefix                                                                     *)
+(* ====================================================================================== *)
+
+(* ---------- token lemmas: unquoted words *)
+Definition delim (σ:settings) (rest:str) : bool :=
+  match rest with [] => true | d :: _ => isspace d || mem d (single σ) end.
+Definition wchar (σ:settings) (d:ascii) : bool := negb (isspace d) && negb (mem d (single σ)).
+
+Lemma take_word : forall σ w rest, contig_any σ = true ->
+  forallb (wchar σ) w = true -> delim σ rest = true -> take σ (w ++ rest) = (w, rest).
+Proof.
+  intros σ w rest Hc; induction w as [|d w IH]; intros Hw Hd.
+  - cbn [app]. destruct rest as [|d rest]; [reflexivity|]. cbn [take]. cbn [delim] in Hd.
+    destruct (isspace d); [reflexivity|]. cbn [orb] in Hd. rewrite Hd. reflexivity.
+  - cbn [forallb] in Hw. apply andb_prop in Hw as [Hd1 Hw]. unfold wchar in Hd1.
+    apply andb_prop in Hd1 as [H1 H2]. apply negb_true_iff in H1, H2.
+    cbn [app take]. rewrite H1, H2, Hc. cbn [negb andb]. rewrite (IH Hw Hd). reflexivity.
+Qed.
+
+(* a word starts with a character that is no blank, no single-character word, no comment
+   character and no quote *)
+Definition wstart (σ:settings) (c:ascii) : bool :=
+  wchar σ c && negb (mem c (comment σ)) && negb (Ascii.eqb c dq || Ascii.eqb c sq).
+
+Lemma nw_start : forall σ c s line, contig_any σ = true -> wstart σ c = true ->
+  nw σ false (c :: s) line = let (w, r) := take σ s in TWord (mkword (c :: w) QN line) r line.
+Proof.
+  intros σ c s line Hc Hs. unfold wstart, wchar in Hs.
+  apply andb_prop in Hs as [Hs H4]. apply andb_prop in Hs as [Hs H3]. apply andb_prop in Hs as [H1 H2].
+  apply negb_true_iff in H1, H2, H3, H4.
+  cbn [nw]. rewrite H1, H3, H4, H2, Hc. cbn [andb negb orb].
+  unfold bump. rewrite (not_space_not_nl _ H1). reflexivity.
+Qed.
+
+(* T5 token lemma: an unquoted word is read as one word, in any context with free word characters
+   (s0: single = "{}=", comment "#";  s1: single = "{};", no comment) *)
+Theorem nw_word : forall σ c w rest line, contig_any σ = true ->
+  wstart σ c = true -> forallb (wchar σ) w = true -> delim σ rest = true ->
+  nw σ false (c :: w ++ rest) line = TWord (mkword (c :: w) QN line) rest line.
+Proof.
+  intros σ c w rest line Hc Hs Hw Hd. rewrite (nw_start σ c _ line Hc Hs).
+  rewrite (take_word σ w rest Hc Hw Hd). reflexivity.
+Qed.
+Corollary nw_s0_word : forall c w rest line,
+  wstart s0 c = true -> forallb (wchar s0) w = true -> delim s0 rest = true ->
+  nw s0 false (c :: w ++ rest) line = TWord (mkword (c :: w) QN line) rest line.
+Proof. intros; apply nw_word; auto. Qed.
+
+Definition bang_tok (t:tokres) : tokres :=
+  match t with TWord w r l => TWord (mkword ("!" :: wv w) QN (wline w)) r l | t => t end.
+
+(* "!" glued in front of a word is read as part of that word *)
+Lemma nw_bang : forall c s line, wstart s0 c = true ->
+  nw s0 false ("!" :: c :: s) line = bang_tok (nw s0 false (c :: s) line).
+Proof.
+  intros c s line Hs.
+  rewrite (nw_start s0 "!" (c :: s) line eq_refl eq_refl).
+  rewrite (nw_start s0 c s line eq_refl Hs).
+  unfold wstart in Hs. apply andb_prop in Hs as [Hs _]. apply andb_prop in Hs as [Hs _].
+  unfold wchar in Hs. apply andb_prop in Hs as [H1 H2]. apply negb_true_iff in H1, H2.
+  cbn [take]. rewrite H1, H2. cbn [contig_any contig s0 negb andb].
+  destruct (take s0 s) as [w r]. reflexivity.
+Qed.
+
+(* ---------- the accumulator of [cobj] is only ever pushed on, and reversed at the end *)
+Definition pre_res (p:list obj) (r:res (list obj * str * nat * nat)) : res (list obj * str * nat * nat) :=
+  match r with Ok (objs, a, b, c) => Ok (p ++ objs, a, b, c) | UErr k t l => UErr k t l | Crash c => Crash c end.
+Lemma pre_bind : forall {A} p (r:res A) k, pre_res p (bind r k) = bind r (fun a => pre_res p (k a)).
+Proof. intros A p [a| |] k; reflexivity. Qed.
+Lemma pre_pre : forall p q r, pre_res p (pre_res q r) = pre_res (p ++ q) r.
+Proof. intros p q [[[[a b] c] d]| |]; cbn [pre_res]; [rewrite app_assoc|..]; reflexivity. Qed.
+
+Ltac pre_step :=
+  match goal with
+  | |- ?x = ?x => reflexivity
+  | |- _ = pre_res _ (bind _ _) => rewrite pre_bind
+  | |- bind ?r _ = bind ?r _ => destruct r; cbn [bind]
+  | |- match ?x with _ => _ end = _ => destruct x
+  | |- (let (_, _) := ?x in _) = _ => destruct x
+  end.
+
+Lemma cobj_acc_app : forall o f s line nid stop start prev active acc t,
+  cobj o f s line nid stop start prev active (acc ++ t)
+  = pre_res (rev t) (cobj o f s line nid stop start prev active acc).
+Proof.
+  intros o; induction f as [|f IH]; intros s line nid stop start prev active acc t; [reflexivity|].
+  destruct active as [ad|]; cbn [cobj]; repeat pre_step.
+  all: try reflexivity.
+  all: try (cbn [pre_res]; rewrite ?app_comm_cons, rev_app_distr; reflexivity).
+  all: try (rewrite ?app_comm_cons; apply IH).
+Qed.
+
+(* ---------- the active definition is only ever touched by [attach], and then flushed *)
+Definition head_res (g:obj -> obj) (r:res (list obj * str * nat * nat)) : res (list obj * str * nat * nat) :=
+  match r with Ok (x :: objs, a, b, c) => Ok (g x :: objs, a, b, c) | r => r end.
+Lemma head_bind : forall {A} g (r:res A) k, head_res g (bind r k) = bind r (fun a => head_res g (k a)).
+Proof. intros A g [a| |] k; reflexivity. Qed.
+Lemma head_pre : forall g x p r, head_res g (pre_res (x :: p) r) = pre_res (g x :: p) r.
+Proof. intros g x p [[[[a b] c] d]| |]; reflexivity. Qed.
+
+Ltac head_step :=
+  match goal with
+  | |- ?x = ?x => reflexivity
+  | |- _ = head_res _ (bind _ _) => rewrite head_bind
+  | |- bind ?r _ = bind ?r _ => destruct r; cbn [bind]
+  | |- match ?x with _ => _ end = _ => destruct x
+  | |- (let (_, _) := ?x in _) = _ => destruct x
+  end.
+
+Lemma cobj_active_map : forall o (g:obj -> obj),
+  (forall n v x, g (attach n v x) = attach n v (g x)) ->
+  forall f s line nid stop start prev ad,
+  cobj o f s line nid stop start prev (Some (g ad)) []
+  = head_res g (cobj o f s line nid stop start prev (Some ad) []).
+Proof.
+  intros o g Hg; induction f as [|f IH]; intros s line nid stop start prev ad; [reflexivity|].
+  cbn [cobj]. repeat head_step.
+  all: try reflexivity.
+  all: try apply IH.
+  Show.
+Qed.
